@@ -10,6 +10,7 @@ mod world;
 mod hot;
 mod thr;
 mod cb;
+mod mgr;
 pub mod util;
 
 fn main() {
@@ -27,6 +28,7 @@ fn main() {
         "hot" => hot::run_case,
         "thr" => thr::run_case,
         "cb" => cb::run_case,
+        "mgr" => mgr::run_case,
         p => {
             eprintln!("unknown property {}", p);
             std::process::exit(2);
